@@ -12,6 +12,7 @@ import (
 	"fmt"
 	"os"
 	"reflect"
+	"sort"
 	"strings"
 	"time"
 
@@ -54,9 +55,106 @@ func decOpts(r *vh.Rng, o vh.Opts) {
 	if r.Chance(1, 5) {
 		o["RecursiveEmptyCheck"] = true
 	}
-	if r.Chance(1, 5) {
+	if r.Chance(1, 3) {
 		o["NilCollectionToZeroLength"] = true
 	}
+}
+
+// markers are single bytes that mean nil / undefined / break / bool / empty or indefinite container / tag
+// in at least one format: substituted into valid input they reach the "unexpected item here" branches.
+var markers = []byte{0x00, 0x01, 0x02, 0x03, 0x40, 0x5f, 0x60, 0x7f, 0x80, 0x90, 0x9f, 0xa0, 0xbf, 0xc0, 0xc1, 0xc2, 0xc3, 0xc4,
+	0xd8, 0xe0, 0xe8, 0xf1, 0xf4, 0xf5, 0xf6, 0xf7, 0xff, '[', ']', '{', '}', 'n', '"', ','}
+
+// sortedKeys returns the map's keys in the order of their canonical rendering (deterministic across builds).
+func sortedKeys(m reflect.Value) []reflect.Value {
+	ks := m.MapKeys()
+	names := make([]string, len(ks))
+	idx := make([]int, len(ks))
+	for i, k := range ks {
+		names[i] = vh.Canon(k.Interface())
+		idx[i] = i
+	}
+	sort.SliceStable(idx, func(a, b int) bool { return names[idx[a]] < names[idx[b]] })
+	out := make([]reflect.Value, len(ks))
+	for i, j := range idx {
+		out[i] = ks[j]
+	}
+	return out
+}
+
+// perturb returns a deep copy of v with the SAME shape (map keys, pointer allocation, mostly the same lengths) and
+// different leaves: a destination whose existing entries are hit by the stream's keys (merge paths).
+func perturb(r *vh.Rng, v reflect.Value) reflect.Value {
+	t := v.Type()
+	out := reflect.New(t).Elem()
+	if t == vh.TimeType {
+		out.Set(v)
+		return out
+	}
+	switch t.Kind() {
+	case reflect.Bool:
+		out.SetBool(!v.Bool())
+	case reflect.Int, reflect.Int8, reflect.Int16, reflect.Int32, reflect.Int64:
+		out.SetInt(v.Int() ^ 1)
+	case reflect.Uint, reflect.Uint8, reflect.Uint16, reflect.Uint32, reflect.Uint64, reflect.Uintptr:
+		out.SetUint(v.Uint() ^ 1)
+	case reflect.Float32, reflect.Float64:
+		out.SetFloat(1.5)
+	case reflect.String:
+		out.SetString(v.String() + "x")
+	case reflect.Slice:
+		if v.IsNil() {
+			if r.Chance(1, 2) {
+				out.Set(reflect.MakeSlice(t, 1, 2))
+			}
+			return out
+		}
+		n := v.Len()
+		if n > 0 && r.Chance(1, 3) {
+			n--
+		}
+		sl := reflect.MakeSlice(t, n, n+r.Intn(3))
+		for i := 0; i < n; i++ {
+			sl.Index(i).Set(perturb(r, v.Index(i)))
+		}
+		out.Set(sl)
+	case reflect.Array:
+		for i := 0; i < t.Len(); i++ {
+			out.Index(i).Set(perturb(r, v.Index(i)))
+		}
+	case reflect.Map:
+		if v.IsNil() {
+			if r.Chance(1, 2) {
+				out.Set(reflect.MakeMap(t))
+			}
+			return out
+		}
+		m := reflect.MakeMapWithSize(t, v.Len())
+		for _, k := range sortedKeys(v) {
+			if r.Chance(1, 5) {
+				continue
+			}
+			m.SetMapIndex(k, perturb(r, v.MapIndex(k)))
+		}
+		out.Set(m)
+	case reflect.Ptr:
+		if v.IsNil() {
+			if r.Chance(1, 2) {
+				out.Set(reflect.New(t.Elem()))
+			}
+			return out
+		}
+		p := reflect.New(t.Elem())
+		p.Elem().Set(perturb(r, v.Elem()))
+		out.Set(p)
+	case reflect.Struct:
+		for i := 0; i < t.NumField(); i++ {
+			if t.Field(i).PkgPath == "" {
+				out.Field(i).Set(perturb(r, v.Field(i)))
+			}
+		}
+	}
+	return out
 }
 
 type result struct {
@@ -85,6 +183,15 @@ func guarded(f func() result) (res result) {
 }
 
 var truncLimit = 600
+
+var debug bool
+
+// dbg prints replay detail (inputs, error texts) to stderr in -only mode; never part of the compared line.
+func dbg(f string, a ...interface{}) {
+	if debug {
+		fmt.Fprintf(os.Stderr, f+"\n", a...)
+	}
+}
 
 func trunc(b []byte) string {
 	if len(b) > truncLimit {
@@ -219,6 +326,7 @@ func main() {
 		}
 		if *only >= 0 {
 			truncLimit = 1 << 30
+			debug = true
 		}
 		format := vh.Formats[r.Intn(len(vh.Formats))]
 		o := vh.RandEncOpts(r, format)
@@ -267,11 +375,40 @@ func main() {
 				d := codec.NewDecoderBytes(enc, h)
 				err := d.Decode(p.Interface())
 				if err != nil {
+					dbg("pre: destination %s error %v", vh.Canon(pre.Interface()), err)
 					return result{true, nil, d.NumBytesRead()}
 				}
 				return result{false, reenc(p.Elem().Interface()), d.NumBytesRead()}
 			})
 			line += fmt.Sprintf("|pre:%v:%d:%s", dpre.err, dpre.n, truncs(dpre.data))
+			// decode into a destination of the SAME SHAPE as the encoded value (same map keys, allocated pointers,
+			// nearly the same lengths) with other leaves: every key of the stream hits an existing entry
+			pre2 := perturb(r.Fork(), v)
+			dpre2 := guarded(func() result {
+				p := reflect.New(t)
+				p.Elem().Set(pre2)
+				d := codec.NewDecoderBytes(enc, h)
+				err := d.Decode(p.Interface())
+				if err != nil {
+					dbg("pre2: destination %s error %v", vh.Canon(pre2.Interface()), err)
+					return result{true, nil, d.NumBytesRead()}
+				}
+				return result{false, reenc(p.Elem().Interface()), d.NumBytesRead()}
+			})
+			line += fmt.Sprintf("|pre2:%v:%d:%s", dpre2.err, dpre2.n, truncs(dpre2.data))
+			// decode into an interface{} that HOLDS such a destination by value (not a pointer): slices held there
+			// cannot be set or expanded, structs and arrays are not addressable, maps are decoded in place
+			dipre := guarded(func() result {
+				var x interface{} = perturb(r.Fork(), v).Interface()
+				d := codec.NewDecoderBytes(enc, h)
+				err := d.Decode(&x)
+				if err != nil {
+					dbg("ipre: error %v", err)
+					return result{true, nil, d.NumBytesRead()}
+				}
+				return result{false, reenc(x), d.NumBytesRead()}
+			})
+			line += fmt.Sprintf("|ipre:%v:%d:%s", dipre.err, dipre.n, truncs(dipre.data))
 			// decode into the NARROWED type (float64->float32, int/int64->int16, uint/uint64->uint8, same shape):
 			// overflow detection and rounding must not depend on the build variant
 			if nt := narrowType(t); nt != t {
@@ -324,20 +461,25 @@ func main() {
 			line += fmt.Sprintf("|io:%v:%d:%s", d3.err, d3.n, truncs(d3.data))
 			// damaged inputs: truncation and one flipped byte, typed and schema-less
 			if len(enc) > 0 {
-				for k := 0; k < 3; k++ {
+				for k := 0; k < 5; k++ {
 					bad := append([]byte(nil), enc...)
 					switch k {
 					case 0:
 						bad = bad[:r.Intn(len(bad))]
 					case 1:
 						bad[r.Intn(len(bad))] ^= byte(1 << uint(r.Intn(8)))
-					default:
+					case 2:
 						bad[r.Intn(len(bad))] = byte(r.U64())
+					case 3: // a marker byte (nil, undefined, break, bool, empty/indefinite container) in place of one byte
+						bad[r.Intn(len(bad))] = markers[r.Intn(len(markers))]
+					default: // the whole input is one marker byte
+						bad = []byte{markers[r.Intn(len(markers))]}
 					}
 					d4 := guarded(func() result {
 						p := reflect.New(t)
 						d := codec.NewDecoderBytes(bad, h)
 						err := d.Decode(p.Interface())
+						dbg("bad%d: input %x typed error %v", k, bad, err)
 						if err != nil {
 							return result{true, nil, 0}
 						}
@@ -355,6 +497,26 @@ func main() {
 					line += fmt.Sprintf("|bad%d:%v:%d:%s/%v:%d:%s", k, d4.err, d4.n, truncs(d4.data), d5.err, d5.n, truncs(d5.data))
 				}
 			}
+		}
+		// every one-byte input into this type: the successes (nil, undefined, empty containers, small scalars ...)
+		// must be the same set with the same results in every variant
+		{
+			var sb strings.Builder
+			for b := 0; b < 256; b++ {
+				in := []byte{byte(b)}
+				d6 := guarded(func() result {
+					p := reflect.New(t)
+					d := codec.NewDecoderBytes(in, h)
+					if err := d.Decode(p.Interface()); err != nil {
+						return result{true, nil, 0}
+					}
+					return result{false, reenc(p.Elem().Interface()), d.NumBytesRead()}
+				})
+				if !d6.err || len(d6.data) > 0 {
+					fmt.Fprintf(&sb, "%02x=%v,%d,%s;", b, d6.err, d6.n, truncs(d6.data))
+				}
+			}
+			line += "|one:" + sb.String()
 		}
 		if *only >= 0 {
 			fmt.Println(line)
